@@ -1274,6 +1274,21 @@ impl Suite for WireSuite {
                 cases.push(Case { input: mk_case("whole", &cfgs[0], &[total.clone()], &total), tags: vec![format!("nesting:{}", d)] });
             }
         }
+        if ctx.prop == "C06" && !ctx.thorough {
+            // quick tier too (R6-C06/m2, a 4 MiB read cap that lands in the incomplete-message branch): ONE malformed
+            // message just over 4 MiB whose tail would parse as a request on its own, between two ordinary calls —
+            // it must be refused as a whole (costs the model driver some twenty seconds, hence a single case)
+            let good = serde_json::to_vec(&json!({"method":"org.varlink.service.GetInfo","parameters":{"token":"t1z"}})).unwrap();
+            let mut big: Vec<u8> = std::iter::repeat(b'j').take(4 * 1024 * 1024).collect();
+            big.extend_from_slice(&good);
+            let mut total = good.clone();
+            total.push(0);
+            total.extend_from_slice(&big);
+            total.push(0);
+            total.extend_from_slice(&good);
+            total.push(0);
+            cases.push(Case { input: mk_case("whole", &cfgs[0], &[total.clone()], &total), tags: vec!["oversize:malformed-4MiB".into()] });
+        }
         if ctx.prop == "C04" {
             // a oneway request larger than any plausible message-size limit (4.5 MB) between two ordinary calls:
             // whatever a size check does with it, it must not be answered
